@@ -40,3 +40,16 @@ Print Assumptions C16_pow_index_range.
 Example C16_example : let ps := [mkG 0 2 (D 1 0) (D 1 0); mkG 0 0 (D 2 0) (D 1 0); mkG (-1) 0 (D 3 0) (D 1 0)] in
   l_starts_of 5 ps = [0; 2; 2; 3; 3; 3; 3] /\ maxl_of ps = 2.
 Proof. vm_compute. split; reflexivity. Qed.
+
+(* Core-electron bookkeeping (EcpLib/CoreMap.v: insert-unless-present, as ECPBasis::addECP_from_file does): for EVERY sequence of loads
+   the count reported for an element is that of its first load; for loads of pairwise different elements it is the element's own count
+   in any order. *)
+From LV Require Import EcpLib.CoreMap.
+Theorem C16_core_is_first_load : forall loads q, CoreMap.lookup (load_all loads) q = first_load loads q.
+Proof. exact core_is_first_load. Qed.
+Print Assumptions C16_core_is_first_load.
+Theorem C16_core_order_independent : forall loads loads' q c,
+  NoDup (map fst loads) -> (forall x, In x loads <-> In x loads') -> NoDup (map fst loads') ->
+  In (q, c) loads -> get_core (load_all loads) q = c /\ get_core (load_all loads') q = c.
+Proof. exact core_order_independent. Qed.
+Print Assumptions C16_core_order_independent.
